@@ -277,6 +277,25 @@ def renderType (c : Ctx) (name : String) (fields : List RField) (variants : List
         (fields ++ [{ rust := "on", ty := .path (name ++ "On"), flatten := true }]),
      .tagged (name ++ "On") c.respDerives c.serdeCrate "__typename" variants]
 
+/-- does the field loop of `calculate_selection` push an `ExpandedField` for the struct of type `typeId` at this
+    selection?  (a field always; a spread of a fragment on the type itself; `__typename` and inline fragments never) -/
+def selPushes (q : Query) (typeId : TypeId) : Sel → Bool
+  | .field _ _ _ => true
+  | .spread fid => (match q.fragments[fid]? with | some f => f.on == typeId | none => false)
+  | _ => false
+
+/-- `has_fields` of `ExpandedSelection::render` for a variant struct: was any `ExpandedField` PUSHED for it by the
+    selections `mine` on the variant `vt` — whether or not `ExpandedField::render` keeps it under `deny`.  A spread pushes
+    its flattened member; an inline fragment is a `calculate_selection` call on the struct: a lone spread inside it pushes
+    a type alias only, otherwise its fields and its spreads of fragments on `vt` are pushed. -/
+def pushedAny (q : Query) (vt : TypeId) : List VariantSel → Bool
+  | [] => false
+  | .inline _ sub :: rest =>
+    (match sub with
+     | [.spread _] => false
+     | _ => sub.any (selPushes q vt)) || pushedAny q vt rest
+  | .spread _ _ :: _ => true
+
 mutual
   /-- `calculate_selection` + render for the type `name` (path prefix `prefix` for nested types);
       returns the items of this type followed by those of its nested types -/
@@ -324,12 +343,13 @@ mutual
             -- every selection on this variant contributes to the same struct
             let r ← calcVariantSels c fuel sname pfx vt mine
             let _ := first
-            match r.1, r.2.2 with
-            | [], [a] => pure (v, a :: r.2.1)         -- nothing but one aliased fragment: a type alias
-            | fs, als => do
+            -- `has_fields` counts the fields PUSHED for the struct, not the rendered ones (`deny` acts at render)
+            match pushedAny c.q vt mine, r.2.2 with
+            | false, [a] => pure (v, a :: r.2.1)      -- nothing but one aliased fragment: a type alias
+            | _, als => do
               -- several contributions: every aliased fragment is one more flattened member
               let extra ← als.mapM (aliasMember c)
-              pure (v, renderType c sname (fs ++ extra.flatten) [] ++ r.2.1)
+              pure (v, renderType c sname (r.1 ++ extra.flatten) [] ++ r.2.1)
       let (vs, items) ← calcVariants c fuel name pfx vsels rest
       pure (thisV :: vs, thisItems ++ items)
 
